@@ -34,13 +34,13 @@ case "${1:-}" in
     ;;
   check)
     prop=$2; tier=${3:-${VERIF_TIER:-quick}}
-    [ -x $B/vinstr ] || build_tools
+    build_tools
     instrument; build_check
     if needs_race $prop; then build_race; fi
     exec $B/check -root $ROOT -race-exe $B/check.race $prop $tier
     ;;
   replay)
-    [ -x $B/vinstr ] || build_tools
+    build_tools
     instrument; build_check
     exec $B/check -root $ROOT replay "$2"
     ;;
